@@ -23,6 +23,8 @@ def uses_trace(ast):
 def match_name(pattern, name):
     """pattern like SendMessage | Channels.Complete | (*channels.Channels).Complete | transport.CloseChannel"""
     s = short(name)
+    if pattern in ("selectrecv", "selectsend"):     # the cases of a select are logged as select-recv / select-send (a hyphen is not a name character in contracts)
+        pattern = "select-" + pattern[6:]
     if s == pattern or name == pattern:
         return True
     if pattern.endswith("*"):
@@ -446,6 +448,8 @@ class SpecCtx:
             return z3.BoolVal(False) if x.ref is None else x.ref == NIL
         if isinstance(x, tuple) and x and x[0] == "nil":
             return z3.BoolVal(True)
+        if isinstance(x, StructV) and self.cur_ev is not None:
+            return z3.BoolVal(False)    # inside all/count over mixed trace entries (eg the cases of several selects): a struct value is never nil
         raise SpecError("nil comparison on %r" % type(x))
 
     def quant(self, a):
